@@ -85,6 +85,8 @@ def cases(tier, seed):
     for pair in PAIRS:
         for axis in AXES:
             out.append({"kind": "copy", "pair": pair, "A_IJ0": "generic", "angle0": 0.3, "axis": axis, "seed": seed})
+    for axis in AXES:
+        out.append({"kind": "rod_pair", "axis": axis, "angle0": 0.3, "seed": seed})
     for pair in ("Fm-RB", "RB-Fm"):
         for axis in AXES:
             out.append({"kind": "ldot_frame", "pair": pair, "axis": axis, "seed": seed})
@@ -599,6 +601,41 @@ def check_ldot_frame(case):
     return {"fails": _dedup(fails), "nontrivial": evals >= 10, "evals": evals, "stats": stats, "outcome": "ldot_frame"}
 
 
+def check_rod_pair(case):
+    """joint between the tip cross-section of one rod (xi1 = 1) and the root cross-section of another (xi2 = 0): the reported
+    angle follows the relative rotation of exactly these two cross-sections, whatever the rest of the second rod does
+    (seeded C25-k)"""
+    from cardillo import System
+
+    seed, axis = case["seed"], case["axis"]
+    system = System(t0=J.T0)
+    rod1 = J.make_subsystem("ROD", seed, 1)
+    rod2 = J.make_subsystem("ROD", seed, 2)
+    A_IJ0 = J.generic_rotation(seed, 2)
+    joint = J.make_joint("Revolute", axis, rod1, rod2, xi1=1.0, xi2=0.0, A_IJ0=A_IJ0.copy(), angle0=case["angle0"])
+    system.add(rod1, rod2, joint)
+    J.assemble(system)
+    q_init, _ = J.raw_q0(system)
+    n = A_IJ0[:, axis]
+    nn = rod2.nnodes_p
+    fails, evals = [], 0
+    for phi in (0.0, 0.4, -0.3, 1.2):
+        for bend in (0.0, 0.9, -1.4):
+            q = q_init.copy()
+            for k in range(nn):
+                d = rod2.qDOF[rod2.nodalDOF_p[k]]
+                ang = phi + bend * k / max(1, nn - 1)      # root node turns by phi, the others by something else
+                q[d] = ab.quat_mul(ab.axis_angle_quat(n, ang), q_init[d])
+            joint.reset()
+            got = float(joint.l(system.t0, q[joint.qDOF]))
+            want = case["angle0"] + phi
+            evals += 1
+            if abs(got - want) > TOL_ANGLE:
+                fails.append({"site": "Revolute between two rod cross-sections: reported angle vs relative rotation of the joined cross-sections",
+                              "msg": f"reported {got!r}, expected {want!r} (root of rod 2 turned by {phi}, its tip by {phi + bend})", "data": {"phi": phi, "bend": bend, "got": got, "want": want}})
+    return {"fails": _dedup(fails), "nontrivial": evals >= 10, "evals": evals, "outcome": "rod_pair"}
+
+
 def check_copy(case):
     """a deep-copied system: the copy's joint reports through its OWN tracker, by every accessor (l and the public alias angle),
     and using the copy leaves the original's tracker alone (seeded C25-l)"""
@@ -639,7 +676,15 @@ def check_tlc(case):
     """E4: TLC explores models/RevoluteTracker.tla; every model edge the implementation can take is replayed on a real joint"""
     from vp.scen import tlc_revolute
 
-    rep = tlc_revolute.conformance(N=case["N"], K=case["K"], B=case["B"], axis=case["axis"], angle0=case["angle0"])
+    try:
+        rep = tlc_revolute.conformance(N=case["N"], K=case["K"], B=case["B"], axis=case["axis"], angle0=case["angle0"])
+    except AttributeError as e:
+        if "previous_quadrant" in str(e) or "n_full_rotations" in str(e):
+            # the model is bound to the implementation through these two fields; without them the replay cannot be bound (the
+            # history exploration of the other cases judges reported angles only and is unaffected)
+            return {"fails": [], "nontrivial": False, "evals": 0, "excluded": "tracker fields not exposed under the modelled names: model replay not bound",
+                    "outcome": "tlc:unbound", "stats": {"n_tlc_unbound": 1}}
+        raise
     fails = []
     if not rep.get("ok"):
         if rep.get("error"):
@@ -656,6 +701,8 @@ def check_tlc(case):
 def check(case):
     if case["kind"] == "copy":
         return check_copy(case)
+    if case["kind"] == "rod_pair":
+        return check_rod_pair(case)
     if case["kind"] == "ldot_frame":
         return check_ldot_frame(case)
     if case["kind"] == "tlc":
